@@ -61,7 +61,8 @@ CLAIMED = {
              "once repaired in /repo they are covered by inverse_circuit_undoes again without an alarm. The "
              "folding model is tied to scaling_circuit_folding by vm_compute correspondence; a numpy sweep covers "
              "PauliRotation, UnitaryMatrix, the residual-count arithmetic and noiseless ZNE with every extrapolation method "
-             "(a defect found there - the sign of the exponential term in the log fit - was repaired, fix: bd235b5).",
+             "(two defects found there were repaired: the sign of the exponential term in the log fit, fix: bd235b5, and the "
+             "underdetermined polynomial fit with fewer scale factors than coefficients, fix: 481918f).",
         design_ref="DESIGN.md section 4 (C12)",
         note="Trusted: Coq kernel+vm_compute; Reals axioms + funext; translate/inverse.py; documented matrices. "
              "PauliRotation and UnitaryMatrix gates have pauli_rotation_inverse_undoes / unitary_matrix_inverse_undoes over the "
@@ -93,10 +94,14 @@ CLAIMED = {
              "bit pattern and gate sequence (exact N/Z model, n-qubit operator semantics). The hand model is tied to "
              "the code by vm_compute correspondence and AST fingerprints; the superposition builder and mixed "
              "Pauli/non-Pauli chains are decided by a dense numpy sweep. The superposition builder: superposition_builder_prepares_the_superposition (any register size, all x <> y, theta, phi), "
-             "its decisions tied by vm_compute correspondence.",
-        design_ref="DESIGN.md section 4 (C16)",
+             "its decisions tied by vm_compute correspondence. preparation_circuit_prepares_the_basis_vector: the X gates of "
+             "ComputationalBasisState.circuit (model run against the real property up to 130 qubits) prepare |bits> for every "
+             "register and bit pattern; mixed_chain_state_is_the_gates_applied_to_the_tracked_vector: the general state over "
+             "circuit + gates returned for a chain with a non-Pauli gate is, times the tracked phase, the gates applied to the "
+             "vector of the basis state it was derived from.",
+        design_ref="DESIGN.md section 4 (C16), 9.2",
         note="Trusted: Coq kernel+vm_compute; Reals axioms + funext; correspondence harness. Partial: "
-             "mixed chains of Pauli and non-Pauli gates on a ComputationalBasisState are decided by the sweep.",
+             "the matrices of the non-Pauli gates in a mixed chain are operators of the theorem (C01 territory); derivation histories by the sweep.",
         technique="Coq proof (induction over the gate sequence, bitwise lemmas on N) + vm_compute correspondence + "
                   "dense numpy sweep"),
     "C04": dict(
@@ -178,11 +183,13 @@ CLAIMED = {
              "inverse; the SCBK parity factor counts the spin-up electrons in every sector. The models (incl. the stale-pivot "
              "behaviour of inverse() on singular matrices that SCBK relies on) are run by vm_compute against the real code on "
              "random matrices, on every JW/BK/SCBK instance (matrix and signs read from the real objects) and on the real "
-             "filters; a Fock-space sweep checks matrix elements of mapped operators.",
-        design_ref="DESIGN.md section 4 (C13)",
+             "filters; a Fock-space sweep checks matrix elements of mapped operators. mappers_round_trip_at_every_size: a unit "
+             "lower-triangular number-operator matrix (the shape of JW and BK at every size; read from the real objects up to 100 "
+             "spin orbitals) has trivial kernel, so the round trips hold whatever the number of spin orbitals.",
+        design_ref="DESIGN.md section 4 (C13), 9.2",
         note="Trusted: Coq kernel+vm_compute (theorems closed under the global context); OpenFermion transforms are "
              "parameters (contract validated per instance); correspondence harness; AST fingerprints. Partial: "
-             "that the JW/BK matrices read from the real objects are invertible is evaluated per instance; SCBK "
+             "that OpenFermion's JW/BK number operators give a unit lower-triangular matrix is read from the real objects (n <= 100), not proved; SCBK "
              "round trips and operator matrix elements are decided by sweep/correspondence only.",
         technique="Coq proof (row-operation invariants on bit vectors, list/positive induction) + vm_compute "
                   "correspondence incl. theorem-hypothesis evaluation + Fock-space numpy sweep"),
@@ -280,10 +287,14 @@ CLAIMED = {
              "mapping of the forward-mapped outcome (with arbitrary junk on unmapped backend qubits) is the original "
              "bit string; totals are conserved and counts aggregate over pre-images; the relabelled circuit acts on "
              "the relabelled register as the original. Exact N/Z model tied to the code by vm_compute correspondence "
-             "and fingerprints; numpy sweep on ideal distributions and rejections.",
-        design_ref="DESIGN.md section 4 (C18)",
+             "and fingerprints; numpy sweep on ideal distributions and rejections. The transpiler itself has an executable model "
+             "(RemapExec.v, run against the real class): constructor_accepts_exactly_the_injective_mappings, "
+             "remapping_rejects_exactly_the_circuits_with_an_unmapped_qubit (wherever the index lies, as control or target), "
+             "returned_circuit_is_the_relabelled_circuit (payload untouched, all indices inside the register of max target + 1 "
+             "qubits), executable_remapping_acts_as_original.",
+        design_ref="DESIGN.md section 4 (C18), 9.2",
         note="Trusted: Coq kernel+vm_compute; funext (+Reals axioms for the circuit theorem); correspondence harness. "
-             "Partial: rejection of duplicate targets / unmapped qubits and the qiskit/braket wrappers (wrap_C18.py: braket "
+             "Partial: the qiskit/braket wrappers (wrap_C18.py: braket "
              "LocalSimulator with split shots, qiskit utils loaded from its file with a fake job) by sweep.",
         technique="Coq proof (bit-extensionality on N, induction over gate lists) + vm_compute correspondence + sweep"),
     "C08": dict(
@@ -326,7 +337,8 @@ CLAIMED = {
              "depolarizing weights form a probability vector; the thermal-relaxation Choi matrix is trace preserving and "
              "positive whenever t2 <= 2 t1. Extracted definitions are validated against the real factories on a grid; a "
              "density-matrix sweep through Qulacs covers filters, the Rust side and user-supplied noise. Seven defects "
-             "found by this check were repaired (fix: commits), four Rust-side ones are listed as known findings.",
+             "found by this check were repaired (fix: 22728ea, 00b2722, a07e57a, f39fc20) and one more found through the argument-reuse "
+             "/ complex-matrix cases of the correspondence (fix: b99742c); four Rust-side ones are listed as known findings.",
         design_ref="DESIGN.md section 4 (C17)",
         note="Trusted: Coq kernel; Reals axioms; translate/kraus.py; thermal Choi matrix transcribed by hand + AST "
              "fingerprint. Partial: eigh square root, Rust GateNoiseInstruction/filters and Qulacs conversion by sweep.",
@@ -391,7 +403,8 @@ CLAIMED = {
              "reconstructor for all b, all grouping strategies and the cached factory. bitwise_pauli_grouping with its special groups and individual grouping: bitwise_grouping_partitions_the_labels, "
              "bitwise_grouping_members_commute. exact_outcome_distribution_gives_the_expectation_value: the measurement circuit is "
              "an isometry (its gates are unitary, checked in Z[w]) and the mean of the reconstructed eigenvalue under the exact "
-             "outcome distribution of the measured state is <psi|P|psi> for every state on a register of any size.",
+             "outcome distribution of the measured state is <psi|P|psi> for every state on a register of any size. A defect found by the "
+             "wide-register sweep with numpy integer indices (fixed-width shift in pauli_label_to_bsv) was repaired (fix: 1c8fa84).",
         design_ref="DESIGN.md section 4 (C07), 9.2",
         note="Trusted: Coq kernel+vm_compute; Reals axioms + funext (measurement theorem); translate/tables.py; "
              "correspondence harness. The cached factory has cached_measurement_factory_returns_the_factory_result (content-keyed "
